@@ -4,6 +4,7 @@ import (
 	"fmt"
 	"go/types"
 	"math/big"
+	"regexp"
 	"sort"
 	"strconv"
 	"strings"
@@ -125,6 +126,14 @@ func (ex *Exec) callExternal(fn *ssa.Function, args []Val) Val {
 func (ex *Exec) initExternalGlobals(p *ssa.Package) {
 	// selected dependency globals that repo code reads
 	switch p.Pkg.Path() {
+	case "github.com/cosmos/ibc-go/v7/modules/core/02-client/types":
+		// var IsRevisionFormat = regexp.MustCompile(`^.*[^\n-]-{1}[1-9][0-9]*$`).MatchString
+		if g, ok := p.Members["IsRevisionFormat"].(*ssa.Global); ok {
+			re := regexp.MustCompile(`^.*[^\n-]-{1}[1-9][0-9]*$`)
+			ex.globals[g].V = FuncV{Name: "ibcclienttypes.IsRevisionFormat", Native: func(ex *Exec, a []Val) Val {
+				return ex.tf.Bool(re.MatchString(ex.argStr(a[0], "chain id")))
+			}}
+		}
 	case "github.com/cosmos/cosmos-sdk/types":
 		// sdk.DefaultBondDenom etc. keep zero; PowerReduction used by TokensToConsensusPower
 		if g, ok := p.Members["DefaultPowerReduction"].(*ssa.Global); ok {
@@ -438,6 +447,22 @@ func init() {
 	reg("fmt.Print", func(ex *Exec, a []Val) Val { return TupleV{ex.tf.BVu(0, 64), IfaceV{}} })
 
 	// ---------- strings / bytes ----------
+	slicesIndex := func(ex *Exec, a []Val) int {
+		sv, ok := a[0].(SliceV)
+		if !ok || sv.Nil {
+			return -1
+		}
+		for i, e := range ex.sliceElems(sv) {
+			if ex.Branch(ex.valEq(e, a[1])) {
+				return i
+			}
+		}
+		return -1
+	}
+	for _, pk := range []string{"slices.", "golang.org/x/exp/slices."} {
+		reg(pk+"Contains", func(ex *Exec, a []Val) Val { return ex.tf.Bool(slicesIndex(ex, a) >= 0) })
+		reg(pk+"Index", func(ex *Exec, a []Val) Val { return ex.tf.BVi(int64(slicesIndex(ex, a)), 64) })
+	}
 	reg("strings.Join", func(ex *Exec, a []Val) Val {
 		el := ex.sliceElems(a[0].(SliceV))
 		sep := ex.bytesOf(a[1])
